@@ -11,7 +11,7 @@
 //	    the REAL noncebased.Reader over the toy segment cipher reading <ct> from a
 //	    source with short reads (<srcmode> = eofWithData:chunk,chunk,...; Go side only)
 //	    that fails at byte srcFail.  Read sizes as listed, then Read(drain) until
-//	    the first EOF/error, then two more calls.
+//	    the first EOF/error, then two more calls (observed as +<bytes> only).
 //	    observation: new:ok|err ; <bytes>:nil|eof|err ; ...
 //	C07|K|<route KS/SU>|<ekeys>|<dkeys>|<tape>|<aad>|<ops>|<sinkFail>|<mut>|<kind>|<raad>|<srcmode>|<srcFail>|<sizes>|<drain>
 //	    real keys: KS = streamingaead.New(handle) (keyset level, decrypt_reader.go),
@@ -389,12 +389,14 @@ func runReads(r io.Reader, sizes []int, drain int) []string {
 		term = t
 	}
 	if term {
+		// two calls after the first error/EOF: only whether bytes are still
+		// handed out is observed (err vs EOF after an error is not part of the property)
 		for i := 0; i < 2; i++ {
 			res, _ := one(drain)
-			out = append(out, res)
 			if res == "panic" {
-				return out
+				return append(out, res)
 			}
+			out = append(out, "+"+res[:strings.Index(res, ":")])
 		}
 	}
 	return out
